@@ -38,6 +38,9 @@ Print Assumptions c03_modified_iff_changed.
    proof needs from nyaruka/gocommon/urns, outside goflow: Normalize is stable up to Identity on the URNs an
    appending modifier makes valid; SetChannel is idempotent and keeps the scheme on the contact's URNs.  It is a
    computable test and is evaluated on every case of the correspondence run. *)
+(* N.B. the environment's fields are FUNCTIONS: the theorem is about a deterministic URN library.  gocommon's unescape is
+   not (known finding F3j: `ext:a%2523b` normalizes differently from call to call); that witness cannot be expressed
+   in this model and is probed on the real code on every run instead. *)
 Theorem c03_idempotent : forall E fresh fresh' m c c1 evs1 b1 c2 evs2 b2,
   wf_contact E c -> mod_wf E m -> mod_env_ok E m c = true ->
   apply E fresh m c = (c1, evs1, b1) ->
@@ -46,7 +49,8 @@ Theorem c03_idempotent : forall E fresh fresh' m c c1 evs1 b1 c2 evs2 b2,
 Proof. exact idempotent. Qed.
 Print Assumptions c03_idempotent.
 
-(* ... with the same environment both times.  If the clock moves in between, a date without time of day parses
+(* ... with the same environment both times (the witness below lets the two parsers differ on every text; that only a
+   date WITHOUT time of day is affected in the code is the harness's knowledge, F3e).  If the clock moves in between, a date without time of day parses
    to another instant and the second application reports again (finding F3e, listed in KNOWN_FINDINGS.txt): the
    second environment differs from the first only in parse_dt *)
 Theorem c03_idempotent_moving_clock_refuted :
@@ -129,3 +133,20 @@ Theorem c03_channel_keeps_identities : forall E ch c c1 evs modified i,
   (In i (map (ident_of E) (c_urns c1)) <-> In i (map (ident_of E) (c_urns c))).
 Proof. exact channel_keeps_identities. Qed.
 Print Assumptions c03_channel_keeps_identities.
+
+(* the engine as the code stands evaluates queries in two environments (session / contact-merged, model run_steps2 Es Em):
+   the replay clause needs no agreement between them, only the same list of groups *)
+Theorem c03_replay_steps2 : forall Es Em ss c c' evs,
+  all_groups Es = all_groups Em ->
+  wf_contact Em c -> Forall (step_wf Em) ss ->
+  run_steps2 Es Em ss c = (c', evs) ->
+  same_contact (replay evs c) c' /\ wf_contact Em c'.
+Proof. exact replay_steps2. Qed.
+Print Assumptions c03_replay_steps2.
+
+Theorem c03_replay_sprint2_partial : forall Es Em k acts c c' evs,
+  all_groups Es = all_groups Em ->
+  wf_contact Em c -> kind_wf Em k -> Forall (fun fm => mod_wf Em (snd fm)) acts ->
+  run_sprint2 Es Em k acts c = (c', evs) -> same_contact (replay evs c) c'.
+Proof. exact replay_sprint2. Qed.
+Print Assumptions c03_replay_sprint2_partial.
